@@ -14,7 +14,7 @@
                                            `checkpoint` (the hook of a deferred pause) or `_start_suspender`;
    together with the finding classes C11-a / C11-b and the absence of impossible-step markers ([no_bad]). *)
 From Coq Require Import List String ZArith Bool Arith Lia.
-From BV Require Import Engine.RE Engine.REInst Proofs.RE_Small Proofs.RE_Inv Proofs.RE_Ctl Proofs.RE_Hold Proofs.RE_Shape.
+From BV Require Import Engine.RE Engine.REInst Proofs.RE_Small Proofs.RE_Inv Proofs.RE_Ctl Proofs.RE_Replay Proofs.RE_Hold Proofs.RE_Shape.
 Import ListNotations.
 (* file-local implicit arguments for the model's functions (the model file itself is untouched) *)
 Local Arguments upd {P D}.
@@ -1007,6 +1007,218 @@ Proof.
   destruct (RE_Inv.tentry P presume D dev s) as [[[s1 c1] os1]|[s2 o2]].
   - eapply held_drive; [|exact H|exact Hnb|exact Hpl]. intros Hnb1 _. apply K. exact Hnb1.
   - invc H. apply K. exact Hnb.
+Qed.
+
+
+(* ------------------------------------------------------------------ the other events *)
+Definition nextfuts (e : event) (f : list (nat * bool)) : list (nat * bool) :=
+  match e with
+  | EvRelease sid => aset sid true f
+  | EvReqSuspend sid _ _ => if amem sid f then f else aset sid false f
+  | _ => f
+  end.
+
+Lemma req_result_futs (s : st) e s' o : req_result s e = (s', o) -> futs s' = futs s.
+Proof. unfold req_result. intros H; invc H. destruct (mreq s); reflexivity. Qed.
+
+Lemma aux_futs (s s' : st) : aux P D s' = aux P D s -> futs s' = futs s.
+Proof. unfold aux. intros H; invc H. reflexivity. Qed.
+
+Lemma step_futs (s : st) e s' o :
+  e <> EvTask -> step presume plan_of dev s e = (s', o) -> futs s' = nextfuts e (futs s).
+Proof.
+  intros Hne H. destruct e as [a|a| | |defer|rs| | |sid pre post|sid|sid ok| |]; try (exfalso; apply Hne; reflexivity);
+    cbn [step nextfuts] in *.
+  - (* EvMain *)
+    destruct a.
+    + destruct (negb (rstate_eqb (state s) Idle)); invc H; reflexivity.
+    + destruct (negb (rstate_eqb (state s) Paused)); [invc H; reflexivity|].
+      match type of H with context [record_interruptions ?x] => destruct (record_interruptions x) as [[s2 o2] ok] eqn:E2 end.
+      apply record_interruptions_aux, aux_futs in E2. simp_st.
+      destruct ok; cbn [negb] in H; [|invc H; exact E2].
+      destruct (cache s2); [|invc H; exact E2].
+      destruct (rewind s2) as [s3 l0] eqn:E3. apply rewind_aux, aux_futs in E3.
+      match type of H with context [call_pausables dev ?x MResume] => destruct (call_pausables dev x MResume) as [[s5 e5] o5] eqn:E5 end.
+      apply call_pausables_aux, aux_futs in E5. simp_st. destruct e5; invc H; simp_st; congruence.
+    + invc H; reflexivity.
+    + invc H; reflexivity.
+    + invc H; reflexivity.
+  - invc H; reflexivity.
+  - invc H; reflexivity.
+  - destruct (request_pause s defer) as [[s1 e1] o1] eqn:E1. apply request_pause_aux, aux_futs in E1.
+    destruct (req_result s1 e1) as [s2 o2] eqn:E2. apply req_result_futs in E2. invc H. congruence.
+  - unfold set_state in H. repeat (bmh H); invc H;
+      repeat match goal with
+             | Hx : req_result _ _ = _ |- _ => apply req_result_futs in Hx
+             | Hx : (if ?c then _ else _) = Some _ |- _ => destruct c; invc Hx
+             end; rewrite ?(aux_futs _ _ (cancel_task_aux _ _ _)) in *; simp_st; try congruence;
+      repeat match goal with Hx : futs _ = futs _ |- _ => rewrite Hx; clear Hx end;
+      repeat bmg; rewrite ?(aux_futs _ _ (cancel_task_aux _ _ _)); simp_st; try reflexivity; try congruence.
+  - unfold set_state in H. repeat (bmh H); invc H;
+      repeat match goal with
+             | Hx : req_result _ _ = _ |- _ => apply req_result_futs in Hx
+             | Hx : (if ?c then _ else _) = Some _ |- _ => destruct c; invc Hx
+             end; rewrite ?(aux_futs _ _ (cancel_task_aux _ _ _)) in *; simp_st; try congruence;
+      repeat match goal with Hx : futs _ = futs _ |- _ => rewrite Hx; clear Hx end;
+      repeat bmg; rewrite ?(aux_futs _ _ (cancel_task_aux _ _ _)); simp_st; try reflexivity; try congruence.
+  - unfold set_state in H. repeat (bmh H); invc H;
+      repeat match goal with
+             | Hx : req_result _ _ = _ |- _ => apply req_result_futs in Hx
+             | Hx : (if ?c then _ else _) = Some _ |- _ => destruct c; invc Hx
+             end; rewrite ?(aux_futs _ _ (cancel_task_aux _ _ _)) in *; simp_st; try congruence;
+      repeat match goal with Hx : futs _ = futs _ |- _ => rewrite Hx; clear Hx end;
+      repeat bmg; rewrite ?(aux_futs _ _ (cancel_task_aux _ _ _)); simp_st; try reflexivity; try congruence.
+  - (* EvReqSuspend *)
+    cbv zeta in H.
+    set (s0 := set_futs s (if amem sid (futs s) then futs s else aset sid false (futs s))) in *.
+    match type of H with
+    | context [match ?x with _ => _ end] =>
+        match x with context [resumable] => destruct x as [[s3 e3] o3] eqn:E1 end
+    end.
+    assert (K3 : futs s3 = futs s0).
+    { destruct (negb (resumable s0)); [|invc E1; reflexivity].
+      unfold set_state in E1. destruct (allowed _ Aborting); [|invc E1; reflexivity].
+      destruct (rstate_eqb _ Paused); invc E1; rewrite ?(aux_futs _ _ (cancel_task_aux _ _ _)); reflexivity. }
+    assert (K0 : futs s0 = if amem sid (futs s) then futs s else aset sid false (futs s)) by reflexivity.
+    clearbody s0.
+    destruct e3.
+    + destruct (req_result s3 (Some e)) as [s4 o4] eqn:E4. apply req_result_futs in E4. invc H. congruence.
+    + destruct (rstate_eqb (state s3) Paused).
+      * match type of H with context [req_result ?sx None] => destruct (req_result sx None) as [s5 o5] eqn:E5 end.
+        apply req_result_futs in E5. invc H. simp_st. congruence.
+      * unfold set_state in H. destruct (allowed (state s3) Suspending).
+        -- match type of H with context [req_result ?sx None] => destruct (req_result sx None) as [s6 o6] eqn:E6 end.
+           apply req_result_futs in E6. invc H. rewrite (aux_futs _ _ (cancel_task_aux _ _ _)) in E6. simp_st. congruence.
+        -- destruct (req_result s3 (Some ETransition)) as [s5 o5] eqn:E5. apply req_result_futs in E5. invc H. congruence.
+  - invc H; reflexivity.
+  - destruct (negb ok && negb (pardon (set_statuses s (aset sid (Some ok) (statuses s))))); invc H; reflexivity.
+  - invc H; reflexivity.
+  - invc H. repeat bmg; try reflexivity. apply aux_futs, mark_cached_aux.
+Qed.
+
+
+Lemma gobs_active_mono o : forall g, hreq (gh g) = None ->
+  (hactive (gh (gobs g o)) = hactive (gh g) \/ hactive (gh (gobs g o)) = []) /\ hreq (gh (gobs g o)) = None.
+Proof.
+  induction o as [|x o IH]; intros g Hr.
+  - rewrite gobs_nil. auto.
+  - rewrite gobs_cons.
+    assert (K : (hactive (gh (g_item g (TObs x))) = hactive (gh g) \/ hactive (gh (g_item g (TObs x))) = []) /\
+                hreq (gh (g_item g (TObs x))) = None).
+    { destruct x; cbn; rewrite ?Hr; auto.
+      - destruct a, b; cbn; rewrite ?Hr; auto.
+      - destruct i; cbn; auto. }
+    destruct K as [K1 K2]. destruct (IH _ K2) as [A B]. split; [|exact B].
+    destruct A as [A|A]; [|right; exact A]. destruct K1 as [K1|K1]; [left | right]; congruence.
+Qed.
+
+Definition quiet_ev (e : event) : bool :=
+  match e with
+  | EvMain (ACall _) => false
+  | EvMain _ | EvMainDone _ | EvPermit | EvResumeTask | EvStatus _ _ | EvCacheDone | EvReqPause true => true
+  | _ => false
+  end.
+
+Lemma step_quiet (s : st) e s' o :
+  quiet_ev e = true -> step presume plan_of dev s e = (s', o) ->
+  Forall hsafe o /\ pc s' = pc s /\ must_cancel s' = must_cancel s /\
+  (state s <> Paused -> state s' = state s /\ stashed s' = stashed s /\ plans s' = plans s /\ resps s' = resps s).
+Proof.
+  intros Hq H. destruct e as [a|a| | |defer|rs| | |sid pre post|sid|sid ok| |]; try discriminate Hq; cbn [step] in H.
+  - destruct a; try discriminate Hq.
+    + (* resume() *)
+      destruct (rstate_eqb (state s) Paused) eqn:Ep; cbn [negb] in H.
+      2:{ invc H. repeat split; try reflexivity. constructor. }
+      apply RE_Inv.rstate_eqb_eq in Ep.
+      match type of H with context [record_interruptions ?x] => destruct (record_interruptions x) as [[s2 o2] ok] eqn:E2 end.
+      pose proof (record_interruptions_dq _ _ _ _ _ _ E2) as Q2. apply RE_Inv.record_interruptions_same in E2. destruct E2 as [E2 _].
+      assert (B2 : pc s2 = pc s /\ must_cancel s2 = must_cancel s).
+      { unfold RE_Inv.same in E2. simp_st. destruct E2 as (_ & X2 & X3 & _). auto. }
+      destruct B2 as [B2 B3].
+      assert (Fin : forall x : st, pc x = pc s2 -> must_cancel x = must_cancel s2 -> forall ox, Forall dq ox ->
+                 Forall hsafe ox /\ pc x = pc s /\ must_cancel x = must_cancel s /\
+                 (state s <> Paused -> state x = state s /\ stashed x = stashed s /\ plans x = plans s /\ resps x = resps s)).
+      { intros x X1 X2 ox Qx. split; [eapply Forall_imp'; [exact dq_hsafe | exact Qx]|]. repeat split; try congruence; contradiction. }
+      destruct ok; cbn [negb] in H; [|invc H; apply Fin; simp_st; auto].
+      destruct (cache s2); [|invc H; apply Fin; simp_st; auto].
+      destruct (rewind s2) as [s3 l0] eqn:E3. apply RE_Inv.rewind_same in E3. destruct E3 as [E3 _].
+      match type of H with context [call_pausables dev ?x MResume] => destruct (call_pausables dev x MResume) as [[s5 e5] o5] eqn:E5 end.
+      pose proof (call_pausables_dq _ _ _ _ _ _ _ _ E5) as Q5. apply RE_Inv.call_pausables_same in E5. destruct E5 as [[[E5 _] _] _].
+      unfold RE_Inv.same in E3, E5. simp_st.
+      destruct E3 as (_ & Y2 & Y3 & _). destruct E5 as (_ & Z2 & Z3 & _).
+      destruct e5; invc H; apply Fin; simp_st; try congruence; apply Forall_app; split; assumption.
+    + invc H. repeat split; try reflexivity. constructor.
+    + invc H. repeat split; try reflexivity. constructor.
+    + invc H. repeat split; try reflexivity. constructor.
+  - invc H. repeat split; try reflexivity. repeat constructor.
+  - invc H. repeat split; try reflexivity. constructor.
+  - destruct defer; [|discriminate Hq]. unfold request_pause in H.
+    destruct (negb (allowed (state s) Pausing)); unfold req_result in H; invc H;
+      (split; [repeat constructor|]); destruct (mreq _); simp_st; repeat split; reflexivity.
+  - destruct (negb ok && negb (pardon (set_statuses s (aset sid (Some ok) (statuses s))))); invc H;
+      repeat split; try reflexivity; constructor.
+  - invc H. repeat split; try reflexivity. constructor.
+  - invc H. split; [constructor|].
+    destruct (pc s) as [| | | | |k|r|r] eqn:Epc; try (repeat split; first [reflexivity | assumption]).
+    destruct k as [| | | |rn dd z]; try (repeat split; first [reflexivity | assumption]).
+    pose proof (RE_Inv.mark_cached_same P D s rn dd) as [E _]. unfold RE_Inv.same in E.
+    destruct E as (X1 & X2 & X3 & _ & _ & X6 & X7 & X8 & _). repeat split; congruence.
+Qed.
+
+Lemma heldA_quiet sid (s s' : st) :
+  heldA sid s -> pc s' = pc s -> must_cancel s' = must_cancel s ->
+  (state s <> Paused -> state s' = state s /\ stashed s' = stashed s /\ plans s' = plans s /\ resps s' = resps s) ->
+  heldA sid s'.
+Proof.
+  intros HD E1 E2 K. unfold heldA in *. rewrite E1. destruct (pc s) eqn:Epc; try exact I; try congruence.
+  all: assert (Hn : state s <> Paused)
+         by (destruct HD as [(X & _)|[((X & _) & _)|((X & _) & _)]]; rewrite X; discriminate).
+  all: destruct (K Hn) as (K1 & K2 & K3 & K4); unfold running, topA, topB in *; rewrite ?K1, ?K2, ?K3, ?K4, ?E1, ?E2; exact HD.
+Qed.
+
+Lemma suspend_step_cases (s : st) sid pre post s' o :
+  step presume plan_of dev s (EvReqSuspend sid pre post) = (s', o) ->
+  (o = [OState Running Suspending; OReq true] /\ state s' = Suspending /\ pc s' = pc s /\
+   must_cancel s' = (match pc s with PcNone | PcDone _ => must_cancel s | _ => true end) /\
+   plans s' = FSingle (mk (CStartSuspender sid pre post)) false :: plans s)
+  \/ Forall hsafe o.
+Proof.
+  intros H. cbn [step] in H. cbv zeta in H.
+  set (s0 := set_futs s (if amem sid (futs s) then futs s else aset sid false (futs s))) in *.
+  assert (K0 : state s0 = state s /\ pc s0 = pc s /\ must_cancel s0 = must_cancel s /\ plans s0 = plans s) by (repeat split; reflexivity).
+  clearbody s0. destruct K0 as (K1 & K2 & K3 & K4).
+  assert (Hreq : forall (x : st) e y oo, req_result x e = (y, oo) ->
+            oo = [OReq (match e with Some _ => false | None => true end)] /\ state y = state x /\ pc y = pc x /\
+            must_cancel y = must_cancel x /\ plans y = plans x).
+  { intros x e y oo Hx. unfold req_result in Hx. invc Hx. destruct (mreq x); repeat split; reflexivity. }
+  destruct (negb (resumable s0)).
+  - (* no checkpoint: aborting, then the frame is refused *)
+    right. set (s1 := set_exc_slot (interrupt s0 CzFailedPause) (Some EFailedPause)) in *. clearbody s1.
+    destruct (set_state s1 Aborting) as [[s2 o2]|] eqn:Ea.
+    + unfold set_state in Ea. destruct (allowed (state s1) Aborting); [|discriminate Ea]. invc Ea.
+      set (s3 := if rstate_eqb (state s1) Paused then set_state_raw s1 Aborting else cancel_task (set_state_raw s1 Aborting)) in *.
+      assert (Hs3 : state s3 = Aborting).
+      { subst s3. destruct (rstate_eqb (state s1) Paused); [reflexivity|].
+        destruct (RE_Inv.cancel_task_spec P D (set_state_raw s1 Aborting)) as (C1 & _). rewrite C1. reflexivity. }
+      clearbody s3. cbv iota beta in H. rewrite Hs3 in H. change (rstate_eqb Aborting Paused) with false in H. cbv iota in H.
+      unfold set_state in H. rewrite Hs3 in H. destruct (allowed Aborting Suspending).
+      * match type of H with context [req_result ?sx None] => destruct (req_result sx None) as [s6 o6] eqn:E6 end.
+        apply Hreq in E6. destruct E6 as (-> & _). invc H. fa; try exact I. destruct (state s1); exact I.
+      * destruct (req_result s3 (Some ETransition)) as [s5 o5] eqn:E5. apply Hreq in E5. destruct E5 as (-> & _). invc H.
+        fa; try exact I. destruct (state s1); exact I.
+    + cbv iota beta in H. destruct (req_result s1 (Some ETransition)) as [s5 o5] eqn:E5. apply Hreq in E5. destruct E5 as (-> & _).
+      invc H. repeat constructor.
+  - cbv iota beta in H. destruct (rstate_eqb (state s0) Paused).
+    + right. match type of H with context [req_result ?sx None] => destruct (req_result sx None) as [s5 o5] eqn:E5 end.
+      apply Hreq in E5. destruct E5 as (-> & _). invc H. repeat constructor.
+    + unfold set_state in H. destruct (allowed (state s0) Suspending).
+      * match type of H with context [req_result ?sx None] => destruct (req_result sx None) as [s6 o6] eqn:E6 end.
+        apply Hreq in E6. destruct E6 as (-> & E6a & E6b & E6c & E6d). invc H.
+        destruct (RE_Inv.cancel_task_spec P D (push_frame (set_state_raw s0 Suspending) (FSingle (mk (CStartSuspender sid pre post)) false)))
+          as (C1 & C2 & C3 & _ & _ & C6 & _).
+        simp_st. destruct (state s0) eqn:Es0; try solve [right; repeat constructor].
+        left. split; [reflexivity|]. rewrite E6a, E6b, E6c, E6d, C1, C2, C3, C6. simp_st. rewrite K2, K3, K4. repeat split; reflexivity.
+      * right. destruct (req_result s0 (Some ETransition)) as [s5 o5] eqn:E5. apply Hreq in E5. destruct E5 as (-> & _). invc H. repeat constructor.
 Qed.
 
 End C11.
